@@ -405,13 +405,66 @@ static JUDGE: SemJudge = SemJudge { property: "C18", opts: RegionOpts { inline_a
 
 const TCHUNK: usize = 500;
 
+/// A host function that handles the error of `run_function`, called at every recursion depth up
+/// to the call-stack limit: whether the callback fits, fails on its first or on its second frame,
+/// every level of the recursion continues exactly once after the call.
+fn deep_try_call(n: i64, host: &str, failing: bool) -> Option<(String, String)> {
+    let add = |a: C, c: C| bin(BinOp::Add, a, c);
+    let mut args = vec![C::Function("cb".into())];
+    if host != "try_call" {
+        args.push(int(11));
+    }
+    let params: Vec<&str> = if host == "try_call" { vec![] } else { vec!["p"] };
+    let cb_body = if failing { vec![sv("l", int(1)), sg("_sink", C::GetProperty(b(int(1)), b(int(2)))), C::Return(b(int(7)))] } else { vec![sv("l", int(1)), C::Return(b(int(7)))] };
+    let m = module(vec![
+        ("main", func(&[], vec![sg("count", int(0)), sg("r", call("rec", vec![int(0)]))])),
+        (
+            "rec",
+            func(
+                &["k"],
+                vec![
+                    sv("mine", add(rv("k"), int(1000))),
+                    C::IfElse(b(bin(BinOp::Less, rv("k"), int(n))), b(sv("x", call("rec", vec![add(rv("k"), int(1))]))), b(sv("x", native(host, args)))),
+                    sg("count", add(rv("count"), int(1))),
+                    C::IfFalse(b(bin(BinOp::Equals, rv("mine"), add(rv("k"), int(1000)))), b(sg("damaged", rv("k")))),
+                    C::Return(b(rv("k"))),
+                ],
+            ),
+        ),
+        ("cb", func(&params, cb_body)),
+    ]);
+    let (co, prog) = crate::realrun::compile_real(&m);
+    let (crate::realrun::CompileOutcome::Ok, Some(prog)) = (co, prog) else { return Some(("deep-try-call:compile".into(), "does not compile".into())) };
+    let got = crate::realrun::run_program(&m, &prog, &cvx_core::refsem::default_natives(), &crate::realrun::RunCfg { stack: 8192, ..Default::default() });
+    if let Some(p) = &got.panic {
+        return Some(("deep-try-call:panic".into(), format!("depth {n}, host {host}: {p}")));
+    }
+    if std::env::var("CVX_C18_SHOW").is_ok() {
+        eprintln!("C18SHOW n={n} host={host} failing={failing} result={} count={:?}", got.result, got.globals.get("count").map(|o| o.short()));
+    }
+    if got.result != "Ok" {
+        // main + n+1 levels of rec need n+2 frames of the 256: beyond that the recursion itself
+        // does not fit, which is not this check's business; below it the run has to succeed,
+        // whatever happens to the callback
+        if n + 2 > 256 && got.result == "CallStackOverflow" {
+            return None;
+        }
+        return Some((format!("deep-try-call:result:{}", got.result), format!("recursion depth {n} (fits the call stack), host function {host}, callee {}: the run ends with {} although the host function handles the callback's failure", if failing { "failing" } else { "returning" }, got.result)));
+    }
+    let count = got.globals.get("count").map(|o| o.short()).unwrap_or_default();
+    if count != format!("{}", n + 1) || got.globals.contains_key("damaged") {
+        return Some(("deep-try-call:continuation".into(), format!("recursion depth {n}, host function {host}, callee {}: the run ends Ok with count = {count} (every one of the {} levels continues exactly once after its call) and damaged = {:?}", if failing { "failing" } else { "returning" }, n + 1, got.globals.get("damaged").map(|o| o.short()))));
+    }
+    None
+}
+
 impl Check for C18 {
     fn id(&self) -> &'static str {
         "C18"
     }
     fn info(&self, tier: Tier) -> CheckInfo {
         CheckInfo {
-            rule: format!("(a) typed parameters: natives of arity 0..4 whose parameter types are the 8 rotations of [Value, i64, f64, &str, &CaoLangTable, *mut CaoLangTable, Nilable<i64>, bool] (every position sees every type), called with every supplied kind (nil, int, real, string, table, function; all 6^k combinations for k <= 2, one varying position for k = 3, 4) through a CallNative card, a native function value + dynamic call and a host function's run_function, at call depth 0, 1 and 2 ({} cases): received parameters in declaration order per the conversion table (exact-kind conversions unchanged; a conversion that must fail -> TaskFailure(name: InvalidArgument naming a rejectable position); coercing conversions = the coercion or a rejection), the call card's value, caller locals and outer locals intact; names starting with __ cannot be registered. (b) F-reenter ({} programs): host function pushing 0..2 arguments and calling run_function on a script function / closure capturing a caller variable / native function value / non-function / library function, callee body returning plainly, early, falling off, erroring, recursing through the host function to depth 3, returning from inside a loop; call site in main / callee / loop, result used as statement value, operand above a live temporary, new local; reference outcome + value-stack height and call-stack depth equal before and after every successful run_function (checked inside the host function through the hook accessors). 'states' = distinct reference outcomes (b) / cases (a)", tcases().len(), progcheck::total_cases(families(tier))),
+            rule: format!("(d) a host function that handles the error of run_function (careful / naive about its pushed argument, returning / failing callee) called at every recursion depth 0..256, i.e. with every number of free call frames down to 0: every level of the recursion continues exactly once and keeps its locals. (a) typed parameters: natives of arity 0..4 whose parameter types are the 8 rotations of [Value, i64, f64, &str, &CaoLangTable, *mut CaoLangTable, Nilable<i64>, bool] (every position sees every type), called with every supplied kind (nil, int, real, string, table, function; all 6^k combinations for k <= 2, one varying position for k = 3, 4) through a CallNative card, a native function value + dynamic call and a host function's run_function, at call depth 0, 1 and 2 ({} cases): received parameters in declaration order per the conversion table (exact-kind conversions unchanged; a conversion that must fail -> TaskFailure(name: InvalidArgument naming a rejectable position); coercing conversions = the coercion or a rejection), the call card's value, caller locals and outer locals intact; names starting with __ cannot be registered. (b) F-reenter ({} programs): host function pushing 0..2 arguments and calling run_function on a script function / closure capturing a caller variable / native function value / non-function / library function, callee body returning plainly, early, falling off, erroring, recursing through the host function to depth 3, returning from inside a loop; call site in main / callee / loop, result used as statement value, operand above a live temporary, new local; reference outcome + value-stack height and call-stack depth equal before and after every successful run_function (checked inside the host function through the hook accessors). 'states' = distinct reference outcomes (b) / cases (a)", tcases().len(), progcheck::total_cases(families(tier))),
             bound: "full product as described".into(),
             exhaustive: true,
             assumptions: vec!["coercing conversions (anything to i64/f64/bool, non-nil to Nilable) may yield the coercion or be rejected: the statement documents no more".into()],
@@ -453,6 +506,19 @@ impl Check for C18 {
             if let Some((k, w)) = reserved_names() {
                 out.violation(Violation::new("C18", k, w, json!({"reserved_names": true})));
             }
+            for n in 0..=256i64 {
+                for host in ["try_call", "try_call1", "try_call1_keep"] {
+                    for failing in [false, true] {
+                        out.evaluations += 1;
+                        out.traces += 1;
+                        match deep_try_call(n, host, failing) {
+                            None => out.nontrivial += 1,
+                            Some((k, w)) => out.violation(Violation::new("C18", k, w, json!({"deep_try_call": [n, host, failing]}))),
+                        }
+                    }
+                }
+            }
+            out.outcome("deep try_call sweep".to_string());
         } else {
             progcheck::run_unit(&JUDGE, families(tier), tier, unit - nt - 1, out)
         }
@@ -461,6 +527,14 @@ impl Check for C18 {
         if let Some(i) = case["typed_case"].as_u64() {
             let cases = tcases();
             return run_tcase(cases.get(i as usize)?).map(|(k, w)| Violation::new("C18", k, w, case.clone()));
+        }
+        if let Some(a) = case["deep_try_call"].as_array() {
+            let host: &'static str = match a[1].as_str()? {
+                "try_call" => "try_call",
+                "try_call1" => "try_call1",
+                _ => "try_call1_keep",
+            };
+            return deep_try_call(a[0].as_i64()?, host, a[2].as_bool()?).map(|(k, w)| Violation::new("C18", k, w, case.clone()));
         }
         if case["reserved_names"].as_bool() == Some(true) {
             return reserved_names().map(|(k, w)| Violation::new("C18", k, w, case.clone()));
